@@ -12,7 +12,6 @@ Variable F : key -> N -> list value -> list N -> N -> N.
 Variable rank : key -> nat.
 Hypothesis Hrank : wf_rank rules rank.
 Hypothesis Hdisc : forall k, r_disc (rules k) = [].
-Hypothesis Hsingle : forall k, r_single (rules k) = [].
 Notation cvK := (cvK rules env F rank).
 Notation bkK := (bkK rules env F rank).
 Notation n1 := (n1 rules).
@@ -41,14 +40,14 @@ Proof.
     - apply Nat.ltb_lt in El. exfalso. pose proof (K4 eq_refl i a b eq_refl El) as Hn.
       destruct (Hfilled i) as (v & Hv); [left; exact El|rewrite K1; unfold ImplVal1.n1 in *; lia|]. congruence.
     - destruct (nth_error _ i) as [[v|]|]; reflexivity. }
-  assert (Hrec : forall i x, (i < length (ti_slots ti))%nat -> key_of_slot t i = Some x -> In (mkDep x false false) (deps s t)).
-  { intros i x Hi Hx. destruct (K7 i x Hi Hx) as [(rq & Hu & Ht & _)|H]; [|exact H]. exfalso. apply (Hno rq); [now left|exact Ht]. }
+  assert (Hrec : forall i x, used rules t i -> (i < length (ti_slots ti))%nat -> key_of_slot t i = Some x -> In (mkDep x false false) (deps s t)).
+  { intros i x Hu0 Hi Hx. destruct (K7 i x Hu0 Hi Hx) as [(rq & Hu & Ht & _)|H]; [|exact H]. exfalso. apply (Hno rq); [now left|exact Ht]. }
   split.
   - intros x Hin. apply in_app_or in Hin. destruct Hin as [Hin|Hin]; apply In_nth_error in Hin; destruct Hin as (j & Hj).
     + assert (Hlt : (j < n1 t)%nat) by (apply nth_error_Some; unfold ImplVal1.n1; congruence).
-      apply (Hrec j x); [lia|]. unfold ImplVal1.key_of_slot. apply Nat.ltb_lt in Hlt. now rewrite Hlt.
+      apply (Hrec j x); [left; exact Hlt|lia|]. unfold ImplVal1.key_of_slot. apply Nat.ltb_lt in Hlt. now rewrite Hlt.
     + assert (Hlt : (j < length (bkK t))%nat) by (apply nth_error_Some; congruence).
-      apply (Hrec (n1 t + n2 t + j)%nat x); [lia|]. unfold ImplVal1.key_of_slot.
+      apply (Hrec (n1 t + n2 t + j)%nat x); [right; lia|lia|]. unfold ImplVal1.key_of_slot.
       assert (E1 : Nat.ltb (n1 t + n2 t + j) (n1 t) = false) by (apply Nat.ltb_ge; lia).
       assert (E2 : Nat.ltb (n1 t + n2 t + j) (n1 t + n2 t) = false) by (apply Nat.ltb_ge; lia).
       rewrite E1, E2. replace (n1 t + n2 t + j - n1 t - n2 t)%nat with j by lia. exact Hj.
@@ -182,7 +181,7 @@ Proof.
     + exact J4.
     + exact J5.
     + rewrite (fe_fintasks _ _ _ _ _ E), fe_stored. intros Hin. apply J6. rewrite (fe_q _ _ _ _ _ E). now right.
-    + intros i z Hi Hz. rewrite fe_deps. destruct (J7 i z Hi Hz) as [(w & Hw1 & Hw2)|Hr]; [left; exists w; split; [now apply fe_unrouted|auto]|now right].
+    + intros i z Hu0 Hi Hz. rewrite fe_deps. destruct (J7 i z Hu0 Hi Hz) as [(w & Hw1 & Hw2)|Hr]; [left; exists w; split; [now apply fe_unrouted|auto]|now right].
     + intros d. rewrite fe_deps. intros Hd. destruct (J8 d Hd) as [H|(w & Hw1 & Hw2)]; [left; now apply fe_curk1|right; exists w; split; auto; now apply fe_O1].
     + intros d. rewrite fe_deps. apply J9.
     + exact J10.
@@ -206,7 +205,7 @@ Proof. rewrite (fe_q _ _ _ _ _ E). now left. Qed.
 
 Lemma BC_fin : BC s'.
 Proof.
-  destruct HB as (HT & [C1 C2 C3 C4 C5 C6 C7 C8] & _).
+  destruct HB as (HT & [C1 C2 C3 C4 C5 C6 C7] & _).
   destruct (fe_self _ _ _ _ _ E) as (F1 & F2 & F3 & F4 & F5).
   destruct (task_deps_recorded s t ti fe_ti (fe_no _ _ _ _ _ E)) as [Hrec Hdcur].
   constructor.
@@ -228,10 +227,9 @@ Proof.
       exists v. split; [now rewrite fe_stored|]. split; [exact Ho|]. split; [|intros _; exact Hc].
       rewrite fe_deps. apply (k2_dmen _ _ _ _ _ _ _ fe_ti).
     + apply (rowok_step rules F s s' k (fe_res _ _ _ _ _ E k Hne)).
-      * intros d _ _. left. rewrite fe_stored, fe_cAt. split; auto. lia.
+      * intros d _ _ _. left. rewrite fe_stored, fe_cAt. split; auto. lia.
       * apply C6; [now apply fe_idle|now rewrite <- (fe_bAt k Hne)].
   - intros k Hc d. rewrite fe_deps. intros Hd. apply fe_curk1. destruct (fe_curk2 k Hc) as [->|H]; [now apply Hdcur|now apply (C7 k H)].
-  - intros k d. rewrite fe_deps. apply C8.
 Qed.
 
 Lemma BS_fin : sreq_scanning s -> BS x s'.
